@@ -148,6 +148,14 @@ def materialize(struct, as_kind="poly"):
         q = numpoly.ndpoly.from_attributes(p.exponents, [numpy.ascontiguousarray(c.T) for c in p.coefficients], p.names,
                                            dtype=p.dtype, retain_coefficients=True, retain_names=True)
         return q.T
+    if as_kind == "poly_perm":
+        # the same polynomial with its indeterminates declared in reverse order (exponent columns follow the names):
+        # what numpoly.symbols("q1 q0") or polynomial({...}, names=("q1", "q0")) produce
+        p = struct_to_poly(struct)
+        if len(p.names) < 2:
+            return p
+        return numpoly.ndpoly.from_attributes(p.exponents[:, ::-1], p.coefficients, p.names[::-1], dtype=p.dtype,
+                                              retain_coefficients=True, retain_names=True)
     dtype = numpy.dtype(struct["dtype"])
     col = [exact_to_py(coef_from_json(c), dtype) for c in struct["terms"][0][1]]
     arr = numpy.array(col, dtype=dtype).reshape(tuple(struct["shape"]))
